@@ -11,6 +11,10 @@
                               first seat after the button.
   * `C13_heads_up_button_first`  heads-up with a small and a bigger big blind posted in full, the
                               small blind / button (seat 1) opens the first round.
+  * `C13_heads_up_tie_seat0`, `C13_heads_up_reversed`  heads-up when the amounts counting in front of
+                              the two seats are equal (two equal blinds; every later street) or the
+                              bigger one is in front of seat 1, seat 0 is designated: the tie-break of
+                              the code (latest seat = last blind), pinned down as a theorem.
   * `C13_low_card`, `C13_high_card`   stud: the designated opener shows the lowest (highest in razz)
                               up-card of all, ranks first and suits — c < d < h < s — breaking ties.
   * `C13_low_hand`, `C13_high_hand`   later stud rounds: the designated opener's exposed hand is the
@@ -299,6 +303,40 @@ theorem C13_heads_up_button_first (s : State) (st : Street) (hst : s.street cfg 
       have := (hall 0 (by omega)).1
       rw [hm1] at this
       omega
+  rw [hm, this, hn]
+
+/-- **Heads-up, tie.**  When the two seats have the same amount counting in front of them (two equal
+    blinds, or nothing at all as on every later street) the tie goes to the later seat as "last
+    blind", so seat 0 — the non-button — is designated.  On later streets this is what the property
+    demands; for two equal posted blinds it is the code's tie-break (DESIGN §11.10), stated here so that
+    a change of the tie-break breaks a proof. -/
+theorem C13_heads_up_tie_seat0 (s : State) (st : Street) (hst : s.street cfg = some st)
+    (hop : st.opening = .position) (hn : cfg.n = 2)
+    (heq : positionKey cfg s 0 = positionKey cfg s 1) :
+    openerOf cfg env s = .ok 0 := by
+  obtain ⟨m, hm, hlt, hall⟩ := C13_position_opener (env := env) s st hst hop (by omega)
+  have : m = 1 := by
+    rcases Nat.lt_or_ge m 1 with h | h
+    · have hm0 : m = 0 := by omega
+      have := (hall 1 (by omega)).2 (by rw [hm0, heq])
+      omega
+    · omega
+  rw [hm, this, hn]
+
+/-- heads-up with a bigger blind in front of seat 1 than in front of seat 0 (a reversed layout:
+    the entries are written button-last) seat 0 opens -/
+theorem C13_heads_up_reversed (s : State) (st : Street) (hst : s.street cfg = some st)
+    (hop : st.opening = .position) (hn : cfg.n = 2)
+    (hlt' : positionKey cfg s 0 < positionKey cfg s 1) :
+    openerOf cfg env s = .ok 0 := by
+  obtain ⟨m, hm, hlt, hall⟩ := C13_position_opener (env := env) s st hst hop (by omega)
+  have : m = 1 := by
+    rcases Nat.lt_or_ge m 1 with h | h
+    · have hm0 : m = 0 := by omega
+      have := (hall 1 (by omega)).1
+      rw [hm0] at this
+      omega
+    · omega
   rw [hm, this, hn]
 
 /-! ### stud: up-cards -/
